@@ -85,4 +85,12 @@ CHECKS = {
         text="At every lattice point weight*mcnorm is compared with integrand*|Jacobian| (1e-5), the image of the cube is shown to be the region coordinate by coordinate, and equal-weight quadrature of the real estimator is compared with an independently computed aperture with an a-posteriori error bound.",
         note="interior lattices only (faces are C02's); convergence decided at finite resolution; quadrature clause limited to cones <= 60 deg",
     ),
+    "C03": dict(
+        engine="E1-lattice",
+        level="exploration",
+        design_ref="DESIGN.md §3 C03",
+        technique="small-scope exhaustive enumeration: thrown batches with 1-4 survivors and a masked-out trajectory x per-event products of trigger / cosine / exit-probability / decay-length / dark-sky alphabets built from the code's own comparisons (value, +-1 ulp) x thresholds x spectrum factors x both classes and methods x all batch permutations; plus compute() over the mode x channel x spectrum cross product with thresholds placed on actual event values",
+        text="Every case is executed on the real mcintegral / compute() and compared (1e-12, counts exact) with a scalar-loop reference written from the property text that reads only table columns and configuration; permutation invariance, threshold monotonicity, the 0.826 bound and input immutability are checked as consequences.",
+        note="dark-sky astronomy stubbed in the isolated part only (C13 owns it); calculate_snr is used as a public function to turn the stored EFields column into trigger values",
+    ),
 }
